@@ -74,6 +74,9 @@ func C07(c *core.Ctx) {
 	runCompositions(c, rules, "Items")
 	ruleMultiSel(c, ruleSet("A-REJ", "A-NOEXTRA"), 2, "differing only in minItems", "differing only in maxItems")
 	ruleFidelity(c, "minItems", "maxItems")
+	// a length check only runs on a field the decoder fills: the field's identifier must be exported for every property name and
+	// every user capitalization (A-IDENT, shared with C14)
+	ruleIdent(c)
 	c.Floor("families", c.Counts["members"], 80, "family members")
 }
 
